@@ -4,7 +4,7 @@ import copy
 from .. import gen
 from .. import universe as U
 from ..core import Result
-from ..histsim import HistoryProperty, gen_history
+from ..histsim import HistoryProperty, family_root, gen_history, late_registrations
 from ..world import World, global_state_guard
 
 
@@ -89,7 +89,18 @@ class C08(HistoryProperty):
                 spec["roots"].append(inner)
         spec = gen.prune(spec)
         ops = gen_history(rng, cfg, spec, ops_kinds=("evaluate", "evaluate", "evaluate", "call", "validate", "keys", "explain"))
+        if cfg["dispatch"] and rng.random() < 0.35:
+            # overloads registered in the middle of the history, on a dataset or THROUGH one derived from it: the equations
+            # X'(o) = X(o overlaid by P) relate the two at every moment, so a registration made on either is one on both
+            late_registrations(rng, spec, ops)
         return {"cfg": cfg, "spec": spec, "ops": ops}
+
+    @staticmethod
+    def _on_family_root(spec, sop):
+        """The same registration, made on the dataset the derivation chain starts from (twin side of the equations)."""
+        if sop["op"] == "register" and any(n["id"] == sop["ds"] and n["k"] == "derive" for n in spec["nodes"]):
+            return dict(sop, ds=family_root(spec, sop["ds"]))
+        return sop
 
     def run_case(self, case):
         res = Result()
@@ -98,6 +109,11 @@ class C08(HistoryProperty):
             w = World(spec)
             overlap = False
             for i, op in enumerate(case["ops"]):
+                if op["op"] == "register":
+                    if op["ds"] in w.prog.obj and all(a in w.prog.obj for a in op["impl"].get("args", {}).values()):
+                        w.do(op)
+                        res.bump("late_registrations")
+                    continue
                 out = w.do(op)
                 res.bump("ops")
                 if w.mutations:
@@ -130,7 +146,7 @@ class C08(HistoryProperty):
                 res.bump("wrapper_equations_checked")
                 t = World(spec2, record=False)
                 for sop in w.structural:
-                    t.do(sop)
+                    t.do(self._on_family_root(spec2, sop))
                 want = t.do({"op": "evaluate", "node": nid2, "o": o2})
                 if t.mutations:
                     res.violate("input-mutated", op_index=i, node=nid2, o=o2, what=[list(m) for m in t.mutations[:3]], op_kind="evaluate(cold)")
